@@ -100,4 +100,119 @@ theorem seqRoundTrip_id (cs : List (List Char × α)) : seqRoundTrip cs = cs := 
 
 end seq
 
+/-! ### array form -/
+
+mutual
+  def WFNode : XNode → Prop
+    | .mk n a _ cs => n ≠ [] ∧ a.Pairwise (fun x y => ltKey x.1 y.1 = true) ∧
+        (∀ kv ∈ a, kv.1 ≠ textKey ∧ kv.1 ≠ commentKey) ∧ WFNodes cs
+  def WFNodes : List XNode → Prop
+    | [] => True
+    | c :: r => WFNode c ∧ WFNodes r
+end
+
+theorem ltKey_total : ∀ a b, ltKey a b = false → ltKey b a = false → a = b := by
+  intro a
+  induction a with
+  | nil => intro b h1 h2; cases b <;> simp [ltKey] at h1 h2 ⊢
+  | cons x xs ih =>
+    intro b h1 h2
+    cases b with
+    | nil => simp [ltKey] at h2
+    | cons y ys =>
+      simp only [ltKey] at h1 h2
+      by_cases hxy : x.toNat < y.toNat
+      · simp [hxy] at h1
+      · by_cases hyx : y.toNat < x.toNat
+        · simp [hyx] at h2
+        · simp only [hxy, hyx, if_false] at h1 h2
+          have : x = y := Proofs.C14J.char_eq_of_toNat (by omega)
+          rw [this, ih ys h1 h2]
+
+def strAttrs (a : List (List Char × List Char)) : List (List Char × JV) := a.map (fun kv => (kv.1, JV.str kv.2))
+
+theorem attrsOf_strAttrs (a : List (List Char × List Char)) (h : ∀ kv ∈ a, kv.1 ≠ textKey ∧ kv.1 ≠ commentKey) :
+    attrsOf (strAttrs a) = a ∧ textOf (strAttrs a) = none := by
+  induction a with
+  | nil => exact ⟨rfl, rfl⟩
+  | cons kv r ih =>
+    obtain ⟨k, v⟩ := kv
+    obtain ⟨h1, h2⟩ := h (k, v) (List.mem_cons_self ..)
+    obtain ⟨i1, i2⟩ := ih (fun x hx => h x (List.mem_cons_of_mem _ hx))
+    have e1 : (k == textKey) = false := by simpa using h1
+    have e2 : (k == commentKey) = false := by simpa using h2
+    simp only [strAttrs, List.map_cons] at i1 i2 ⊢
+    simp [attrsOf, textOf, e1, e2, i1, i2, strOrEmpty, scalarStr]
+
+theorem attrs_insert_text (t : List Char) (m : List (List Char × JV)) (h : ∀ kv ∈ m, kv.1 ≠ textKey ∧ kv.1 ≠ commentKey) :
+    attrsOf (insertKV textKey (.str t) m) = attrsOf m ∧ textOf (insertKV textKey (.str t) m) = some t := by
+  have hne : (textKey == commentKey) = false := by decide
+  induction m with
+  | nil => simp [insertKV, attrsOf, textOf, hne, strOrEmpty, scalarStr]
+  | cons kv r ih =>
+    obtain ⟨k, v⟩ := kv
+    obtain ⟨h1, h2⟩ := h (k, v) (List.mem_cons_self ..)
+    have e1 : (k == textKey) = false := by simpa using h1
+    have e2 : (k == commentKey) = false := by simpa using h2
+    obtain ⟨i1, i2⟩ := ih (fun x hx => h x (List.mem_cons_of_mem _ hx))
+    unfold insertKV
+    split
+    · simp [attrsOf, textOf, e1, e2, hne, strOrEmpty, scalarStr]
+    · split
+      · simp [attrsOf, textOf, e1, e2, i1, i2]
+      · rename_i hlt1 hlt2
+        have := ltKey_total textKey k (by simpa using hlt1) (by simpa using hlt2)
+        exact absurd this.symm h1
+
+theorem attrs_roundtrip (a : List (List Char × List Char)) (t : Option (List Char))
+    (hs : a.Pairwise (fun x y => ltKey x.1 y.1 = true)) (h : ∀ kv ∈ a, kv.1 ≠ textKey ∧ kv.1 ≠ commentKey) :
+    (attrsJV a t = .null ∧ a = [] ∧ t = none) ∨
+    (∃ kvs, attrsJV a t = .obj kvs ∧ attrsOf kvs = a ∧ textOf kvs = t) := by
+  have hfold : (strAttrs a).foldl (fun acc kv => insertKV kv.1 kv.2 acc) [] = strAttrs a := by
+    have := foldl_insert_sorted (strAttrs a) [] (by
+      simp only [List.nil_append, strAttrs, List.pairwise_map]
+      exact hs)
+    simpa using this
+  obtain ⟨ha, ht⟩ := attrsOf_strAttrs a h
+  unfold attrsJV
+  by_cases hn : (a.isEmpty && t.isNone) = true
+  · left
+    simp only [Bool.and_eq_true, List.isEmpty_iff, Option.isNone_iff_eq_none] at hn
+    simp [hn.1, hn.2]
+  · right
+    simp only [hn, Bool.false_eq_true, if_false]
+    have hfold' : (List.map (fun (kv : List Char × List Char) => (kv.1, JV.str kv.2)) a).foldl
+        (fun acc kv => insertKV kv.1 kv.2 acc) [] = strAttrs a := hfold
+    cases t with
+    | none =>
+      refine ⟨strAttrs a, ?_, ha, ht⟩
+      simp only [hfold']
+    | some tt =>
+      have hk : ∀ kv ∈ strAttrs a, kv.1 ≠ textKey ∧ kv.1 ≠ commentKey := by
+        intro kv hkv
+        simp only [strAttrs, List.mem_map] at hkv
+        obtain ⟨x, hx, rfl⟩ := hkv
+        exact h x hx
+      obtain ⟨i1, i2⟩ := attrs_insert_text tt (strAttrs a) hk
+      refine ⟨insertKV textKey (.str tt) (strAttrs a), ?_, by rw [i1, ha], i2⟩
+      simp only [hfold']
+
+mutual
+  theorem fromArr_toArr : ∀ n : XNode, WFNode n → fromArr (toArr n) = some n
+    | .mk n a t cs, h => by
+      obtain ⟨hn, hs, hk, hcs⟩ := h
+      have ihcs := fromArrL_toArrL cs hcs
+      have hne : n.isEmpty = false := by cases n <;> simp at hn ⊢
+      rcases attrs_roundtrip a t hs hk with ⟨hnull, ha, ht⟩ | ⟨kvs, hobj, ha, ht⟩
+      · subst ha; subst ht
+        simp only [toArr, hnull, fromArr, scanElems, scalarStr, ihcs]
+        simp [hne, attrsOf, textOf]
+      · simp only [toArr, hobj, fromArr, scanElems, scalarStr, ihcs]
+        simp [hne, ha, ht]
+  theorem fromArrL_toArrL : ∀ cs : List XNode, WFNodes cs → fromArrL (toArrL cs) = cs
+    | [], _ => by simp [toArrL, fromArrL]
+    | c :: r, h => by
+      obtain ⟨hc, hr⟩ := h
+      simp [toArrL, fromArrL, fromArr_toArr c hc, fromArrL_toArrL r hr]
+end
 end Proofs.C14X
